@@ -54,7 +54,12 @@ Urls == <<
   \* they must be escaped by every translation of the pattern into a regex
   MkUrl("https", "", "aa.ba", "", "/a+a"),
   MkUrl("https", "", "aa.ba", "", "/a+(a)/+"),
-  MkUrl("https", "", "a.ba", "", "/aa/(a+.a")
+  MkUrl("https", "", "a.ba", "", "/aa/(a+.a"),
+  \* a literal '*' in the request URL (a legal path character): for '^' it is a separator like any other, and
+  \* the runs next to it are tokens of the URL like any other
+  MkUrl("https", "", "b.a", "", "/a*ab"),
+  MkUrl("https", "", "b.a", "", "/ab*"),
+  MkUrl("https", "", "b.a", "", "/ba*ab/a")
 >>
 
 Pats == [left : {"none", "pipe", "dpipe"}, body : SeqsUpTo(Sigma, 1, MaxLen), right : BOOLEAN]
